@@ -59,6 +59,7 @@ def bases():
         "dataclass": dc, "recursive": rec,
         "dict[str, Decimal]": {"k": "dict", "sp": "dict", "a": [S("str"), S("Decimal")]},
         "enum": en,
+        "literal": {"k": "literal", "values": [1, "a", None]},
     }
 
 
@@ -198,7 +199,16 @@ def outcomes(spec, tag, value_srcs, input_srcs, ref_form="object", bytes_in=None
                 issuer = mod
                 T = named["name"]
                 depth = int(ref_form.split(":")[1])
-        exec(OPS_SRC, issuer.__dict__)  # noqa: S102
+            elif ref_form.startswith("qualifier-string"):
+                # the text of a qualified annotation, `ClassVar[Name]` / `Final[Name]`, issued from the defining module
+                issuer = mod
+                q = ref_form.split(":")[1]
+                mod.__dict__.setdefault(q, getattr(typing, q))
+                T = f"{q}[{named['name']}]"
+        # the issuing functions belong to a module with a file, like any user's module: the library finds "the caller's
+        # module" through inspect.getmodule(frame), which goes by file name
+        issuer.__dict__.setdefault("__file__", f"/nonexistent/{issuer.__name__}.py")
+        exec(compile(OPS_SRC, issuer.__dict__["__file__"], "exec"), issuer.__dict__)  # noqa: S102
         ops = issuer.__dict__
         run = lambda name, *a: tl.call(ops["deeper"], depth, ops[name], tl, *a)  # noqa: E731
         for i, src in enumerate(value_srcs):
@@ -286,7 +296,8 @@ def check_case(base_name, base, chain, position, data, col, counter):
     forms = ["object", "object@clash"]
     named_root = position == "root" and chain and chain[-1] in ("newtype", "alias", "stralias")
     if named_root:
-        forms += ["qualified-string", "forwardref", "bare:0", "bare:1", "bare:2", "bare:5", "qualified-string@clash", "forwardref@clash"]
+        forms += ["qualified-string", "forwardref", "bare:0", "bare:1", "bare:2", "bare:5", "qualified-string@clash", "forwardref@clash",
+                  "qualifier-string:ClassVar", "qualifier-string:Final"]
     for form in forms:
         col.ev()
         col.label(f"position:{position}")
